@@ -2,8 +2,10 @@ package main
 
 import (
 	"fmt"
+	"go/ast"
 	"go/token"
 	"go/types"
+	"golang.org/x/tools/go/ast/astutil"
 	"sort"
 	"strings"
 
@@ -77,6 +79,7 @@ func (fe *FnEnc) findLoops() {
 				if l.spec != nil {
 					sp.Invs = append(sp.Invs, l.spec.Invs...)
 					sp.Decr = l.spec.Decr
+					sp.Exits = l.spec.Exits
 				}
 				sp.Invs = append(sp.Invs, extra...)
 				l.spec = sp
@@ -338,11 +341,27 @@ func (fe *FnEnc) run() {
 		}
 	}
 	fe.curBlock = nil
+	// an `exits only` clause generates obligations only for offending returns; record that it is bound to a loop
+	if !fe.dry && fe.contract != nil {
+		for _, l := range fe.loops {
+			if l.spec == nil {
+				continue
+			}
+			for i := range l.spec.Exits {
+				cl := &l.spec.Exits[i]
+				props := cl.Props
+				if props == nil {
+					props = fe.contract.Props
+				}
+				fe.addObl(st0, fmt.Sprintf("loop%d.exit", l.ord), cl.Label+":clause-bound-to-a-loop", props, tTrue, fn.Pos())
+			}
+		}
+	}
 	// an assertion whose anchor matches no call of the function would be silently dropped: make it an
 	// obligation that cannot be discharged instead (vacuity guard)
 	if !fe.dry && fe.contract != nil {
 		for i := range fe.contract.Asserts {
-			if !fe.assertFired[i] {
+			if !fe.assertFired[i] && !fe.contract.Asserts[i].Forbid {
 				as := &fe.contract.Asserts[i]
 				o := fe.addObl(st0, "assert", as.Label+":anchor-matches-no-call", fe.propsFor(&as.Clause), tFalse, fn.Pos())
 				if o != nil {
@@ -1377,6 +1396,22 @@ func (fe *FnEnc) execReturn(st *State, x *ssa.Return) {
 	if fe.dry {
 		return
 	}
+	// returns inside a loop with an `exits only` clause
+	for _, l := range fe.loops {
+		if l.spec == nil || len(l.spec.Exits) == 0 || !fe.insideLoopStmt(l, x.Pos()) {
+			continue
+		}
+		for i := range l.spec.Exits {
+			cl := &l.spec.Exits[i]
+			if txt := fe.srcText(x.Pos(), "return"); !strings.Contains(txt, cl.Src) {
+				props := cl.Props
+				if props == nil {
+					props = fe.contract.Props
+				}
+				fe.addObl(st, fmt.Sprintf("loop%d.exit", l.ord), cl.Label+":"+txt, props, tNot(st.pc), x.Pos())
+			}
+		}
+	}
 	var rets []RV
 	for _, r := range x.Results {
 		rv := fe.get(st, r)
@@ -1491,6 +1526,23 @@ func (fe *FnEnc) fvStored(fv *ssa.FreeVar) bool {
 		case *ssa.UnOp, *ssa.DebugRef:
 		default:
 			return true // passed on: someone else may write it
+		}
+	}
+	return false
+}
+
+// insideLoopStmt: is the position lexically inside the for/range statement of the loop?  (A return statement inside a
+// loop body is not part of the natural loop of the control flow graph, so the block sets cannot answer this.)
+func (fe *FnEnc) insideLoopStmt(l *Loop, pos token.Pos) bool {
+	f := fe.astFile(l.minPos)
+	if f == nil || !pos.IsValid() {
+		return false
+	}
+	path, _ := astutil.PathEnclosingInterval(f, l.minPos, l.minPos)
+	for _, n := range path {
+		switch n.(type) {
+		case *ast.ForStmt, *ast.RangeStmt:
+			return n.Pos() <= pos && pos < n.End()
 		}
 	}
 	return false
